@@ -6,7 +6,7 @@ from harness import core, gen, common
 
 ID = 'C14'
 LEAN_TARGETS = ['Props.C14']
-TIE_A = ['cga_call_eq', 'cga_translation_eq', 'cga_round_eq']
+TIE_A = ['cga_call_eq', 'cga_translation_eq', 'cga_round_eq'] + ['cga_dilation_eq']
 OBLIGATIONS = ['C14.translation_unit', 'C14.translation_moves_point', 'C14.translation_fixes_einf', 'C14.versor_product_composes',
                'C14.dilation_unit', 'C14.dilation_scales_point', 'C14.base_bivector_commutes_with_added', 'C14.rotation_commutes',
                'C14.commutes_with_eo_einf', 'C14.unit_versor_fixes', 'C14.unit_versor_isometry',
